@@ -269,6 +269,17 @@ def schema(ctx, d3):
                                     and src(x.test.func) in isa_names and len(x.test.args) == 2 and src(x.test.args[1]) == 'int' \
                                     and src(x.test.args[0]) == src(idx):
                                 return True
+                            # 2 if any(isinstance(i, list) for i in <index>) else 3   (nested group <=> some element is itself a list of positions)
+                            if isinstance(x, ast.IfExp) and isinstance(x.body, ast.Constant) and x.body.value == 2 \
+                                    and isinstance(x.orelse, ast.Constant) and x.orelse.value == 3 and isinstance(x.test, ast.Call) \
+                                    and src(x.test.func) == 'any' and len(x.test.args) == 1 \
+                                    and isinstance(x.test.args[0], (ast.ListComp, ast.GeneratorExp)):
+                                comp = x.test.args[0]
+                                g0 = comp.generators[0]
+                                e_ = comp.elt
+                                if src(g0.iter) == src(idx) and not g0.ifs and isinstance(e_, ast.Call) and src(e_.func) in isa_names \
+                                        and len(e_.args) == 2 and src(e_.args[0]) == src(g0.target) and src(e_.args[1]) == 'list':
+                                    return True
                             return False
                         good = bool(vals) and all(kind_ok(x) for x in vals)
                         if good:
